@@ -34,7 +34,9 @@ use starlark_derive::starlark_value;
 
 use crate as starlark;
 use crate::any::ProvidesStaticType;
+use crate::collections::StarlarkHashValue;
 use crate::collections::StarlarkHasher;
+use crate::private::Private;
 use crate::typing::Ty;
 use crate::typing::TyBasic;
 use crate::typing::TypingBinOp;
@@ -316,6 +318,11 @@ impl<'v> StarlarkValue<'v> for StarlarkBigInt {
             .get_hash_64()
             .hash(hasher);
         Ok(())
+    }
+
+    // Equal numbers must hash equally: small integers and floats hash through `NumRef::get_hash`.
+    fn get_hash(&self, _private: Private) -> crate::Result<StarlarkHashValue> {
+        Ok(NumRef::Int(StarlarkIntRef::Big(self)).get_hash())
     }
 
     fn typechecker_ty(&self) -> Option<Ty> {
